@@ -13,13 +13,13 @@ CHECKS = {
          'Offline side is the real offline monitor (checked by C01); RefDiscrete arbitrates; <=14 updates, depth<=5.'),
  'C03': ('exploration', '4 C03', TECH + 'pastified monitor stepped online; delayed output compared with the real offline monitor on each prefix; unit notation and sampling period varied',
          'Seeded exploration of (bounded-future specification, unit notation, sampling period, trace); for every i >= h the i-th update must equal offline(original)[i-h] on the prefix; specs without future operators must be unaffected by pastify().',
-         'Horizon from RefHorizon; envelope rule memory-past-above-delayed (open finding F08) removes that region from the search.'),
+         'Horizon from RefHorizon; open finding F08: a past operator with unbounded memory above a delayed operand is excluded from the search, one with bounded memory m is compared from update h + m on (common.warmup_extra).'),
  'C04': ('exploration', '4 C04', TECH + 'independent sensor clocks whose sample instants interleave (Allen relations), redundant re-sampling; refinement against RefDense over the recorded signals',
          'Seeded exploration of (dense-time specification, independently sampled signals); output must be non-decreasing in time, start at the common-domain start and denote RefDense at every break-point and mid-point; re-sampling must not change the denoted result.',
          'Trusts sim/ref/dense.py; envelope rule bounded-op-nonzero-start (open finding F14a, pinned by the suite) removes that region.'),
  'C05': ('fault_enumeration', '4 C05', TECH + 'chunking schedules of update() enumerated per sampled (spec, signals): every synchronous frontier splitting up to a cap plus skewed per-variable splittings with empty batches; compared with the real offline monitor',
          'Per sampled (specification, signals) the chunking dimension is enumerated (all 2^(m-1) synchronous splittings when m-1 <= 5 quick / 9 thorough, sampled beyond, plus skewed schedules); every schedule must denote the offline result on the span it covers and all schedules must agree.',
-         'Offline side is the real dense offline monitor (checked by C04); all sensors start at 0 (envelope of F14a); F08 envelope for pastified specs.'),
+         'Offline side is the real dense offline monitor (checked by C04); all sensors start at 0 (envelope of F14a); F08 envelope (narrowed to unbounded memory) for pastified specs.'),
  'C10': ('fault_enumeration', '4 C10', TECH + 'reset() injected at every position of a pre-history with clock faults (also before the first update and twice); compared step by step with a freshly constructed real monitor',
          'Per sampled (online specification incl. sub-specs / pastified / dense, pre-history, post sequence) reset() is injected at every position 0..m; post outputs and the sampling-violation counter must equal those of a fresh monitor.',
          'Oracle is a fresh real monitor; only supported specifications.'),
